@@ -318,6 +318,10 @@ func (m *Machine) global(g *G, gl *ssa.Global) *Cell {
 	c := m.newCell(gl.Type().(*types.Pointer).Elem())
 	c.Name = gl.String()
 	globals[gl] = c
+	if !own && !initAllowed[pkg.Pkg.Path()] && g.inInit == 0 && gl.Name() != "init$guard" {
+		// the initialiser of this package is not interpreted: the variable reads as its zero value (listed in the evidence)
+		m.res.Intrinsics["zero-valued global of a package whose initialiser is not interpreted: "+gl.String()] = true
+	}
 	return c
 }
 
@@ -328,6 +332,9 @@ func (m *Machine) runInit(g *G, pkg *ssa.Package) {
 	}
 	path := pkg.Pkg.Path()
 	own := strings.HasPrefix(path, m.ld.ModulePath())
+	if os.Getenv("SYMGO_INITLOG") != "" {
+		fmt.Fprintf(os.Stderr, "runInit %s allowed=%v\n", path, own || initAllowed[path])
+	}
 	if !own && !initAllowed[path] {
 		return
 	}
@@ -344,6 +351,9 @@ func (m *Machine) runInit(g *G, pkg *ssa.Package) {
 					panic(r)
 				}
 				// foreign initialiser: whatever could not be interpreted leaves its globals zero
+				if os.Getenv("SYMGO_INITLOG") != "" {
+					fmt.Fprintf(os.Stderr, "init of %s abandoned: %v\n", path, r)
+				}
 				return
 			}
 		}()
@@ -353,13 +363,20 @@ func (m *Machine) runInit(g *G, pkg *ssa.Package) {
 		defer func() { g.inInit--; g.initDirect = savedDirect }()
 		g.call(initFn, nil, nil)
 	}()
+	if os.Getenv("SYMGO_INITLOG") != "" {
+		for gl, c := range m.foreignGlobals {
+			if gl.Pkg == pkg && len(c.Kids) > 200 {
+				fmt.Fprintf(os.Stderr, "  global %s kid[0x80]=%v kid[0x41]=%v\n", gl.Name(), c.Kids[0x80].V, c.Kids[0x41].V)
+			}
+		}
+	}
 }
 
 // packages (outside the module under test) whose initialisers are interpreted on first use of one of their globals
 var initAllowed = map[string]bool{
 	"io": true, "errors": true, "strconv": true, "unicode/utf8": true, "bytes": true, "strings": true,
 	"github.com/cybergarage/go-tracing/tracer": true, "crypto/tls": false, "net": false, "time": false,
-	"io/fs": true, "os": false, "syscall": false, "sort": true, "math": true,
+	"io/fs": true, "os": false, "syscall": false, "sort": true, "math": true, "bufio": true, "context": true,
 }
 
 func (g *G) exec(fr *Frame) Value {
@@ -509,6 +526,7 @@ func (g *G) step(fr *Frame, ins ssa.Instruction) {
 		if p == nil {
 			g.throw("nil-deref", "invalid memory address or nil pointer dereference")
 		}
+		g.yieldBeforeSharedWrite(p)
 		g.onWrite(p)
 		m.store(p, g.get(fr, x.Val))
 	case *ssa.TypeAssert:
@@ -1059,9 +1077,13 @@ func (g *G) boundsCheck(label string, idx *Term, n int, kind, msg string) {
 	}
 }
 
-func (g *G) idxTerm(v Value) *Term {
+// idxTerm widens an index/length operand to 64 bits according to the signedness of its Go type.
+func (g *G) idxTerm(v Value, typ types.Type) *Term {
 	t := v.(*Term)
 	if t.W < 64 {
+		if b, ok := under(typ).(*types.Basic); ok && b.Info()&types.IsUnsigned != 0 {
+			return g.m.ctx.Zext(t, 64)
+		}
 		t = g.m.ctx.Sext(t, 64)
 	}
 	return t
@@ -1070,7 +1092,7 @@ func (g *G) idxTerm(v Value) *Term {
 func (g *G) indexAddr(fr *Frame, x *ssa.IndexAddr) Value {
 	m := g.m
 	base := g.get(fr, x.X)
-	idx := g.idxTerm(g.get(fr, x.Index))
+	idx := g.idxTerm(g.get(fr, x.Index), x.Index.Type())
 	switch b := base.(type) {
 	case *SliceV:
 		if b.IsNil() {
@@ -1098,7 +1120,7 @@ func (g *G) indexAddr(fr *Frame, x *ssa.IndexAddr) Value {
 func (g *G) indexValue(fr *Frame, x *ssa.Index) Value {
 	m := g.m
 	base := g.get(fr, x.X)
-	idx := g.idxTerm(g.get(fr, x.Index))
+	idx := g.idxTerm(g.get(fr, x.Index), x.Index.Type())
 	switch b := base.(type) {
 	case *ArrayV:
 		g.boundsCheck("idx", idx, len(b.E), "index", "index out of range")
@@ -1124,7 +1146,7 @@ func (g *G) lookup(fr *Frame, x *ssa.Lookup) Value {
 	base := g.get(fr, x.X)
 	key := g.get(fr, x.Index)
 	if s, ok := base.(*StrV); ok {
-		return g.strIndex(s, g.idxTerm(key))
+		return g.strIndex(s, g.idxTerm(key, x.Index.Type()))
 	}
 	mo, _ := base.(*MapObj)
 	var val Value
@@ -1367,8 +1389,8 @@ func (g *G) makeSlice(fr *Frame, x *ssa.MakeSlice) Value {
 	m := g.m
 	c := m.ctx
 	st := under(x.Type()).(*types.Slice)
-	lenT := g.idxTerm(g.get(fr, x.Len))
-	capT := g.idxTerm(g.get(fr, x.Cap))
+	lenT := g.idxTerm(g.get(fr, x.Len), x.Len.Type())
+	capT := g.idxTerm(g.get(fr, x.Cap), x.Cap.Type())
 	esz := m.sizeof(st.Elem())
 	if esz == 0 {
 		esz = 1
@@ -1492,13 +1514,13 @@ func (g *G) sliceOp(fr *Frame, x *ssa.Slice) Value {
 	base := g.get(fr, x.X)
 	var lo, hi, max *Term
 	if x.Low != nil {
-		lo = m.simp(g.idxTerm(g.get(fr, x.Low)))
+		lo = m.simp(g.idxTerm(g.get(fr, x.Low), x.Low.Type()))
 	}
 	if x.High != nil {
-		hi = m.simp(g.idxTerm(g.get(fr, x.High)))
+		hi = m.simp(g.idxTerm(g.get(fr, x.High), x.High.Type()))
 	}
 	if x.Max != nil {
-		max = m.simp(g.idxTerm(g.get(fr, x.Max)))
+		max = m.simp(g.idxTerm(g.get(fr, x.Max), x.Max.Type()))
 	}
 	switch b := base.(type) {
 	case *StrV:
